@@ -29,6 +29,9 @@ type Transaction struct {
 	rec       sessionRecord
 	stats     cStatStaging
 	closed    bool
+	// A commit was attempted and failed: the manifest may already hold the
+	// record that refers to the tables of this transaction.
+	commitFailed bool
 }
 
 // Get gets the value for the given key. It returns ErrNotFound if the
@@ -219,6 +222,7 @@ func (tr *Transaction) Commit() error {
 				case <-time.After(time.Second):
 				case <-tr.db.closeC:
 					tr.db.logf("transaction@commit exiting")
+					tr.commitFailed = true
 					tr.db.compCommitLk.Unlock()
 					return cerr
 				}
@@ -232,6 +236,7 @@ func (tr *Transaction) Commit() error {
 		if cerr != nil {
 			// Return error, lets user decide either to retry or discard
 			// transaction.
+			tr.commitFailed = true
 			tr.db.compCommitLk.Unlock()
 			return cerr
 		}
@@ -253,6 +258,14 @@ func (tr *Transaction) Commit() error {
 }
 
 func (tr *Transaction) discard() {
+	if tr.commitFailed {
+		// The record of the failed commit may have reached the manifest
+		// (e.g. it was written but could not be synced), in which case the
+		// next Open treats the tables as live: they must stay. If it did
+		// not, the next Open removes them as unreferenced files.
+		tr.db.logf("transaction@discard keeping N·%d tables of failed commit", len(tr.tables))
+		return
+	}
 	// Discard transaction.
 	for _, t := range tr.tables {
 		tr.db.logf("transaction@discard @%d", t.fd.Num)
